@@ -144,7 +144,8 @@ Inductive op :=
   | Proc (id : N) (flush : bool) (n : N) (rd : nat -> Z) (tadd : Z)   (* Process of a Gateable event *)
   | NonGateable                                                      (* Process of any other event *)
   | FlushAll
-  | Close.
+  | Close
+  | Other.                                                           (* any other exported method: Reopen, Type, Now — no-ops for the gate *)
 
 Definition step (E : env) (s : gst) (o : op) : gst * res :=
   match o with
@@ -154,6 +155,7 @@ Definition step (E : env) (s : gst) (o : op) : gst * res :=
       let '(s1, r1) := astep E s (AExpire rd) in
       if is_err r1 then (s1, RErr) else astep E s1 (AAdd id flush n tadd)
   | FlushAll | Close => astep E s AFlushAll
+  | Other => (s, RNil)
   end.
 
 Definition s0 : gst := {| groups := []; out := {| olog := []; osend := 0%N |}; accepted := [] |}.
@@ -168,6 +170,7 @@ Definition op_atoms (E : env) (s : gst) (o : op) : list atom :=
       if N.eqb id 0 then [] else
       if is_err (snd (astep E s (AExpire rd))) then [AExpire rd] else [AExpire rd; AAdd id flush n tadd]
   | FlushAll | Close => [AFlushAll]
+  | Other => []
   end.
 Fixpoint atoms_of (E : env) (s : gst) (ops : list op) : list atom :=
   match ops with
@@ -243,6 +246,7 @@ Definition lock_trace (E : env) (s : gst) (o : op) : list lk :=
       [Acq; Rel] ++ section_trace E s s1 ++
       (if is_err (snd (astep E s (AExpire rd))) then [] else section_trace E s1 (fst (astep E s1 (AAdd id flush n tadd))))
   | FlushAll | Close => section_trace E s (fst (astep E s AFlushAll))
+  | Other => []
   end.
 
 (* the (non-reentrant) mutex is never acquired while held, and is released at the end *)
